@@ -449,6 +449,7 @@ func evalNewObject(vm *r.VM, node *syntax.ObjNewExpr) (r.Element, error) {
 }
 
 func evalImportStmt(vm *r.VM, node *syntax.ImportStmt) error {
+	vm.SetCurrentLine(node.GetCurrentLine())
 	extLibName := node.ImportName.GetLiteral()
 
 	var extModule *r.Module
